@@ -24,7 +24,7 @@ ASSUMPTIONS = [
     "CPython ast parses /repo's source as the interpreter would",
     "the frozen reference of Yosys RTLIL cell semantics in sa/rules/c04.py (REF_UNARY/REF_BINARY; $mux: Y = S ? B : A)",
 ]
-MIN_INSTANCES = {"R-04a": 60, "R-04b": 25, "R-04c": 10, "R-04d": 8, "R-04e": 40, "R-04f": 2}
+MIN_INSTANCES = {"R-04g": 2, "R-04a": 60, "R-04b": 25, "R-04c": 10, "R-04d": 8, "R-04e": 40, "R-04f": 2}
 
 # reference: netlist operator -> (cell type, required A_SIGNED, required B_SIGNED); None = free (overwritten by the
 # common `signed` choice, or irrelevant because all widths are equal)
@@ -682,6 +682,41 @@ def r04f(model, ctx):
               "Part assignment must place case idx at lhs_start + idx * lhs.stride", f"{IR}:{lf.lineno}")
 
 
+def r04g(model, ctx):
+    """memoisation keys cover every argument that determines the cached cell"""
+    R = "R-04g"
+    cls = model.cls(f"{IR}::NetlistEmitter")
+    n = 0
+    for name, fn in model.class_methods(cls).items():
+        keys = [s_ for s_ in fn.body if isinstance(s_, ast.Assign) and unparse(s_.targets[0]) == "key" and isinstance(s_.value, ast.Tuple)]
+        trys = [s_ for s_ in fn.body if isinstance(s_, ast.Try)]
+        if not keys or not trys:
+            continue
+        t = trys[0]
+        if not (t.body and isinstance(t.body[0], ast.Return) and "_cache[key]" in unparse(t.body[0])):
+            continue
+        n += 1
+        in_key = {unparse(e) for e in keys[0].value.elts}
+        params = [a.arg for a in fn.args.args + fn.args.kwonlyargs if a.arg != "self"]
+        used = set()
+        for h in t.handlers:
+            for x in ast.walk(ast.Module(body=h.body, type_ignores=[])):
+                if isinstance(x, ast.Name) and x.id in params:
+                    used.add(x.id)
+        missing = sorted(used - in_key)
+        ctx.check(not missing, R, f"NetlistEmitter.{name}:cache-key", f"key covers {sorted(used)}",
+                  f"{name} caches the cell it builds under key {sorted(in_key)} but the cell also depends on {missing}: two calls "
+                  f"that differ only in {missing} (e.g. the same switch under different enclosing conditions, emitted from one "
+                  f"source line in a loop) share one cell", f"{IR}:{fn.lineno}")
+    need(n >= 1, "no memoised cell constructor found in NetlistEmitter")
+    # emit_rhs cache: keyed by the identity of the AST node only (module-independent by design; nets cross modules as ports)
+    fr = model.func(f"{IR}::NetlistEmitter.emit_rhs")
+    t = unparse(fr)
+    ok = "self.rhs_cache[id(value)]" in t and "self.rhs_cache[id(value)] = (result, signed, value)" in t
+    ctx.check(ok, R, "NetlistEmitter.emit_rhs:cache", "keyed by id(value); the value itself is kept alive in the entry",
+              "the RHS cache must be keyed by id(value) and keep `value` in the entry (so the id cannot be reused)", f"{IR}:{fr.lineno}")
+
+
 def _only_ir(rule_fn, keep):
     def wrapped(model, ctx):
         n0, v0 = len(ctx.obligations), len(ctx.violations)
@@ -693,6 +728,6 @@ def _only_ir(rule_fn, keep):
 
 _is_ir = lambda c: any(c.startswith(p) for p in ("emit_", "NetlistEmitter", "NetlistDriver", "unify_shapes"))
 
-RULES = [("R-04a", r04a), ("R-04b", r04b), ("R-04c", r04c), ("R-04d", r04d), ("R-04e", r04e), ("R-04f", r04f),
+RULES = [("R-04g", r04g), ("R-04a", r04a), ("R-04b", r04b), ("R-04c", r04c), ("R-04d", r04d), ("R-04e", r04e), ("R-04f", r04f),
          ("R-02c", _only_ir(c02.r02c, _is_ir)), ("R-02d", _only_ir(c02.r02d, _is_ir)),
          ("R-02e", _only_ir(c02.r02e, _is_ir)), ("R-02a", _only_ir(c02.r02a, _is_ir))]
